@@ -20,6 +20,6 @@ Your task: make ONE small, realistic change to the library source in `{wt}/src/y
      `cd {wt} && PYTHONPATH={wt}/src /venv/bin/python -m pytest -q -p no:cacheprovider -n 4 --timeout=900 tests 2>&1 | tail -15`
      BEFORE your change (note the counts: some tests fail on the unchanged tree already; those are pre-existing and do not matter) and AFTER it: the set of passing tests must not shrink.
   2. the property above is now violated for some inputs — but NOT in a way that ordinary use would expose at once: it should need something specific to manifest (an unusual input shape such as an isolated node / a node touched only by bidirected edges / a particular size or ordering, a multi-step sequence of operations, a particular combination of arguments, or two sites that cooperate). {angle}
-  3. you provide a demonstration: a small standalone Python program `{wt}/demo_seed.py` (run as `PYTHONPATH={wt}/src /venv/bin/python {wt}/demo_seed.py`) that exits 0 when the property holds on its input(s) and exits 1 (printing what went wrong) when it is violated. It must exit 1 WITH your change and exit 0 WITHOUT it (check both: use `git -C {wt} stash` / `git -C {wt} stash pop` around a run, keeping demo_seed.py untracked). The demonstration must test the property as stated (compare against the mathematical definition / an independent computation), not merely compare with the old output.
+  3. you provide a demonstration: a small standalone Python program `{wt}/demo_seed.py` (run as `PYTHONPATH={wt}/src /venv/bin/python {wt}/demo_seed.py`) that exits 0 when the property holds on its input(s) and exits 1 (printing what went wrong) when it is violated. It must exit 1 WITH your change and exit 0 WITHOUT it (check both: save your change with `git -C {wt} diff > /tmp/{pid}_change.patch`, undo it with `git -C {wt} apply -R /tmp/{pid}_change.patch`, run, re-apply with `git -C {wt} apply /tmp/{pid}_change.patch`; do NOT use `git stash`, the stash is shared with other worktrees). The demonstration must test the property as stated (compare against the mathematical definition / an independent computation), not merely compare with the old output.
 
 Do not edit tests. Do not commit. Keep the change minimal (a few lines). Use `timeout` around long commands. When finished leave the worktree with your change applied (uncommitted) and `demo_seed.py` present, and reply with: the diff (`git -C {wt} diff`), what input/sequence is needed for the violation to manifest, the before/after test-suite counts, and the output of the demonstration with and without the change. If your first idea breaks existing tests, try another; do not give up before trying at least five different ideas.""")
